@@ -1237,3 +1237,6 @@ mut('C09', 'suffixed-tags-counted', BRANCHES,
 mut('C09', 'cascade-not-resorted', BRANCHES,
     "            self._cascade = OrderedDict(\n                sorted(self._cascade.items(), key=cmp_to_key(compare_branches))\n            )",
     "            self._cascade = OrderedDict(sorted(self._cascade.items(), key=lambda kv: (kv[0][0], kv[0][1] or 0)))")
+mut('C03', 'merge-despite-empty-selection', QUEUE,
+    "    if not queues.mergeable_prs:\n        failed_prs = queues.failed_prs\n        if not failed_prs:\n            raise exceptions.NothingToDo()\n        else:\n            notify_queue_build_failed(failed_prs, job)\n            raise exceptions.QueueBuildFailed()\n",
+    "    if not queues.mergeable_prs:\n        failed_prs = queues.failed_prs\n        if failed_prs:\n            notify_queue_build_failed(failed_prs, job)\n")
